@@ -5,7 +5,7 @@ from .. import oracle as o
 
 ID = 'C08'
 RULE = ('(every input() piece is handed to the library from byte offset (len + first byte) mod 16 of a 64-byte aligned buffer) one record per (digest, key, message, chunking): Hmac over every legacy Digest type (18 algorithms, BLAKE2 at several output sizes); '
-        'key lengths 0,1,bs-1,bs,bs+1,2bs+3,random; result must equal H((K^opad)||H((K^ipad)||m)) and output_bytes the digest size; '
+        'key lengths 0,1,bs-1,bs,bs+1,2bs+3,random, every length 0..300, and structured keys (all-zero, zero tail / zero head across the block size, pad-byte and all-ones fills); result must equal H((K^opad)||H((K^ipad)||m)) and output_bytes the digest size; '
         'three messages of 2^29 - 64 + k bytes (the inner hash length field passes 2^32 bits); distinct = (digest, key length class, message length, chunking)')
 ASSUMPTIONS = ['python hmac construction over hashlib / pure Keccak; block size of SHA-3/Keccak = sponge rate']
 FLOORS = {'evaluations': 2000, 'distinct': 1500}
@@ -49,6 +49,21 @@ def gen(tier, seed):
                 continue
             yield 'mac hmac:%s %s ob.0 i.0.%s r.0 #k=sweep/%d' % (d, rng.data(n), rng.data(rng.choice([0, 1, 20, 64, 100])), n)
             yield 'mac hmac:%s %s ob.0 i.0.%s rr.0.%d #m=sweep/%d' % (d, rng.data(rng.choice([1, 16, 32, bs])), rng.data(n), ol, n)
+    # structured keys: zero runs at either end (K' is the key zero-padded, so a key with a zero tail must still be hashed when it is longer than a block and must
+    # not be confused with its trimmed form), keys equal to the pad bytes (K' xor ipad / opad becomes a zero block), all-ones keys
+    for d in DIGESTS:
+        _, bs, ol = o.digest_fn(d)
+        ks = [('=00:%d' % n, 'zero%+d' % (n - bs)) for n in (1, bs - 1, bs, bs + 1, 2 * bs + 3)]
+        for hl, tot in ((5, bs), (5, bs + 1), (bs - 1, bs + 7), (bs, bs + 1), (bs, bs + 30), (bs + 1, 2 * bs), (1, 3 * bs), (rng.rng(1, bs), rng.rng(bs + 1, 2 * bs)), (3, 9)):
+            ks.append((rng.bytes(hl).hex() + '00' * (tot - hl), 'ztail%d/%+d' % (hl - bs, tot - bs)))
+        for zl, tot in ((bs, bs + 5), (3, bs), (bs - 1, bs + 1), (1, 2 * bs)):
+            ks.append(('00' * zl + rng.bytes(tot - zl).hex(), 'zhead%d/%+d' % (zl - bs, tot - bs)))
+        for b in ('36', '5c', 'ff'):
+            for n in (bs, bs + 1, 7):
+                ks.append(('=%s:%d' % (b, n), 'fill%s%+d' % (b, n - bs)))
+        for key, kc in ks:
+            ml = rng.choice([0, 1, 20, bs, bs + 9])
+            yield 'mac hmac:%s %s ob.0 i.0.%s %s #k=struct/%s' % (d, key, rng.data(ml), rng.choice(['r.0', 'rr.0.%d' % ol]), kc)
     yield from huge(rng)      # tagged #huge: only in the first generator pass of a thorough run, and not re-run by C20
 
 
